@@ -26,7 +26,8 @@ def gen(rng, max_n=7):
     specs = []
     for i in range(n):
         preds = [j for j in range(i) if rng.random() < 0.35]
-        specs.append(dict(preds=preds, setup=rng.random() < 0.35, usearg=False, failx=False))
+        specs.append(dict(preds=preds, setup=rng.random() < 0.35, usearg=False, failx=False,
+                          retnone=rng.random() < 0.2))
     for i, s in enumerate(specs):
         if s["setup"]:
             s["preds"] = [p for p in s["preds"] if specs[p]["setup"]]
@@ -42,7 +43,7 @@ def make_node(i, s):
         control.node_enter(i)
         if s["failx"] and s["usearg"] and a[-2] == 13:
             raise Boom13(i)
-        return ("n%d" % i,) + tuple(a)
+        return None if s.get("retnone") else ("n%d" % i,) + tuple(a)
 
     body.__name__ = body.__qualname__ = "n%d" % i
     return xn(body, setup=s["setup"])
@@ -116,7 +117,8 @@ def render(v):
 def header(hid, sc):
     out = ["H %s %d" % (hid, sc["n"])]
     for s in sc["specs"]:
-        out.append("N %d %d %d %s" % (int(s["setup"]), int(s["failx"]), int(s["usearg"]), " ".join(map(str, s["preds"]))))
+        out.append("N %d %d %d %d %s" % (int(s["setup"]), int(s["failx"]), int(s["usearg"]), int(bool(s.get("retnone"))),
+                                         " ".join(map(str, s["preds"]))))
     return out
 
 
